@@ -19,7 +19,7 @@ Inductive err : Type :=
 | WithMsg (msg : bytes) (e : err)
 | WithStk (e : err).
 
-(* ": " -- the separator in (*withMessage).Error *)
+(* ": " -- the separator in withMessage.Error *)
 Definition msg_sep : bytes := [58; 32]%N.
 
 (* errors.Cause: `for err != nil { c, ok := err.(causer); if !ok {break}; err = c.Cause() }`.
